@@ -67,7 +67,10 @@ func (c *ctx) anchoredFileFacts() {
 	// properties.jsonl lives next to the lean/ directory the facts are written into
 	path := os.Getenv("VERIF_PROPERTIES")
 	if path == "" {
-		path = "/verif/properties.jsonl"
+		path = filepath.Join(c.outDir, "..", "..", "..", "properties.jsonl")
+		if _, err := os.Stat(path); err != nil {
+			path = "/verif/properties.jsonl"
+		}
 	}
 	fh, err := os.Open(path)
 	if err != nil {
